@@ -350,116 +350,124 @@ func runC15(c *Ctx) {
 		if sem == nil {
 			panic(anchorErr{"rebroadcast semaphore (chan of capacity 1) in broadcastHandler"})
 		}
-		// closures: trigger = the one containing a Go; worker = the go'd literal
-		var trigger, worker *ssa.Function
-		// (the handler itself when the trigger is written out in the loop)
+		// spawner / worker pairs: a function (the handler itself, or a closure
+		// of it) containing a `go` of a function literal; a spawner written out
+		// at each of its call sites gives one pair per site
+		type pair struct {
+			trigger, worker *ssa.Function
+			goIn            *ssa.Go
+		}
+		var pairs []pair
 		for _, cl := range ir.WithClosures(fn) {
 			for _, in := range find(cl, func(in ssa.Instruction) bool { _, ok := in.(*ssa.Go); return ok }) {
 				if mc, ok := in.(*ssa.Go).Call.Value.(*ssa.MakeClosure); ok {
 					if f, ok := mc.Fn.(*ssa.Function); ok {
-						trigger, worker = cl, f
+						pairs = append(pairs, pair{cl, f, in.(*ssa.Go)})
 					}
 				}
 			}
 		}
-		if trigger == nil || worker == nil {
+		if len(pairs) == 0 {
 			panic(anchorErr{"triggerRebroadcast closure and its goroutine in broadcastHandler"})
 		}
-		c.R.Funcs[c.nm(trigger)] = true
-		c.R.Funcs[c.nm(worker)] = true
-		isSem := func(cl *ssa.Function) func(ssa.Value) bool {
-			return func(v ssa.Value) bool {
-				// a load of the free variable bound to the semaphore cell, or the channel itself
-				return ir.DerivesFrom(v, func(x ssa.Value) bool {
-					if x == ssa.Value(sem) {
-						return true
+		for _, pr := range pairs {
+			trigger, worker, theGo := pr.trigger, pr.worker, pr.goIn
+			c.R.Funcs[c.nm(trigger)] = true
+			c.R.Funcs[c.nm(worker)] = true
+			isSem := func(cl *ssa.Function) func(ssa.Value) bool {
+				return func(v ssa.Value) bool {
+					// a load of the free variable bound to the semaphore cell, or the channel itself
+					return ir.DerivesFrom(v, func(x ssa.Value) bool {
+						if x == ssa.Value(sem) {
+							return true
+						}
+						fv, ok := x.(*ssa.FreeVar)
+						return ok && fv.Type().String() == types.NewPointer(sem.Type()).String() || ok && fv.Type().String() == sem.Type().String()
+					})
+				}
+			}
+			// acquire: non-blocking select receiving from the semaphore
+			var acq *ssa.Select
+			ir.Instrs(trigger, func(in ssa.Instruction) {
+				if sel, ok := in.(*ssa.Select); ok && !sel.Blocking && selectHasRecv(sel, isSem(trigger)) {
+					// the acquisition this spawn lies behind: the nearest one
+					// dominating the go statement
+					if sel.Block() != theGo.Block() && !sel.Block().Dominates(theGo.Block()) {
+						return
 					}
-					fv, ok := x.(*ssa.FreeVar)
-					return ok && fv.Type().String() == types.NewPointer(sem.Type()).String() || ok && fv.Type().String() == sem.Type().String()
-				})
+					if acq == nil || acq.Block().Dominates(sel.Block()) {
+						acq = sel
+					}
+				}
+			})
+			construct := c.nm(fn) + " | goroutine spawned only with the token held"
+			if acq == nil {
+				c.fail(construct, c.P.Pos(trigger.Pos()), "the trigger no longer takes the semaphore token with a non-blocking receive")
+				continue
 			}
-		}
-		// acquire: non-blocking select receiving from the semaphore
-		var acq *ssa.Select
-		ir.Instrs(trigger, func(in ssa.Instruction) {
-			if sel, ok := in.(*ssa.Select); ok && !sel.Blocking && selectHasRecv(sel, isSem(trigger)) {
-				acq = sel
-			}
-		})
-		construct := c.nm(fn) + " | goroutine spawned only with the token held"
-		if acq == nil {
-			c.fail(construct, c.P.Pos(trigger.Pos()), "the trigger no longer takes the semaphore token with a non-blocking receive")
-			return
-		}
-		// edge taken when the receive arm fired (index 0)
-		gs := guard{name: "token received"}
-		for _, r := range ir.Refs(acq) {
-			if e, ok := r.(*ssa.Extract); ok && e.Index == 0 {
-				for _, ib := range ir.IntEqBranches(e) {
-					if ib.K == 0 {
-						gs.sites = append(gs.sites, guardSite{ib.Branch, acq})
+			// edge taken when the receive arm fired (index 0)
+			gs := guard{name: "token received"}
+			for _, r := range ir.Refs(acq) {
+				if e, ok := r.(*ssa.Extract); ok && e.Index == 0 {
+					for _, ib := range ir.IntEqBranches(e) {
+						if ib.K == 0 {
+							gs.sites = append(gs.sites, guardSite{ib.Branch, acq})
+						}
 					}
 				}
 			}
-		}
-		gos := find(trigger, func(in ssa.Instruction) bool {
-			g, ok := in.(*ssa.Go)
-			if !ok {
-				return false
-			}
-			mc, isMc := g.Call.Value.(*ssa.MakeClosure)
-			return isMc && mc.Fn == ssa.Value(worker)
-		})
-		c.guarded(trigger, gs, 1, "go rebroadcast", gos, 1, gDominate)
-		// token balance in the trigger: once the token was taken, every path to
-		// the trigger's exit either starts the goroutine (which gives it back) or
-		// gives it back itself
-		relT := sendOn(isSem(trigger))
-		isGo := func(in ssa.Instruction) bool { _, ok := in.(*ssa.Go); return ok }
-		c.mustFollow(trigger, "semaphore token taken", c.successEdges(gs), anyOf(isGo, relT), "go rebroadcast (releases later) / token release", nil, 1)
-		// release after rebroadcast on every path
-		reb := c.method("pushtx", "Broadcaster", "rebroadcast")
-		rel := sendOn(isSem(worker))
-		c.mustFollow(worker, "goroutine entry", []start{atEntry(worker)}, rel, "rebroadcastSem <- struct{}{}", nil, 1)
-		c.mustPrecede(worker, callTo(reb), "b.rebroadcast(txs, confChan)", rel, "token release", 1)
-		rels := find(worker, rel)
-		c.verdict(len(rels) == 1, c.nm(worker)+" | the token is returned exactly once", c.P.Pos(worker.Pos()), "one release", fmt.Sprintf("%d releases of the semaphore token", len(rels)), c.ats(rels)...)
-		// initial token: one send in broadcastHandler before the loop
-		init := find(fn, sendOn(func(v ssa.Value) bool {
-			return ir.DerivesFrom(v, func(x ssa.Value) bool { return x == ssa.Value(sem) })
-		}))
-		c.verdict(len(init) == 1, c.nm(fn)+" | semaphore starts with one token", c.P.Pos(fn.Pos()), "one initial token", fmt.Sprintf("%d initial tokens", len(init)), c.ats(init)...)
-		// the goroutine works on a copy: it is given a map made in the trigger, filled with tx.Copy()
-		okCopy := false
-		cp := c.method(pWire, "MsgTx", "Copy")
-		for _, call := range find(worker, callTo(reb)) {
-			a := ir.CallOf(call).Args[1]
-			// free var bound to a MakeMap of the trigger
-			ir.DerivesFrom(a, func(x ssa.Value) bool {
-				if fv, ok := x.(*ssa.FreeVar); ok {
-					for _, g := range gos {
-						mc := g.(*ssa.Go).Call.Value.(*ssa.MakeClosure)
-						for i, b := range mc.Bindings {
-							if worker.FreeVars[i] == fv {
-								if mk, ok := b.(*ssa.MakeMap); ok && mk.Parent() == trigger {
-									okCopy = true
-								}
-								if al, ok := b.(*ssa.Alloc); ok {
-									for _, st := range ir.StoresTo(al) {
-										if mk, ok := st.Val.(*ssa.MakeMap); ok && mk.Parent() == trigger {
-											okCopy = true
+			gos := []ssa.Instruction{theGo}
+			c.guarded(trigger, gs, 1, "go rebroadcast", gos, 1, gDominate)
+			// token balance in the trigger: once the token was taken, every path to
+			// the trigger's exit either starts the goroutine (which gives it back) or
+			// gives it back itself
+			relT := sendOn(isSem(trigger))
+			isGo := func(in ssa.Instruction) bool { _, ok := in.(*ssa.Go); return ok }
+			c.mustFollow(trigger, "semaphore token taken", c.successEdges(gs), anyOf(isGo, relT), "go rebroadcast (releases later) / token release", nil, 1)
+			// release after rebroadcast on every path
+			reb := c.method("pushtx", "Broadcaster", "rebroadcast")
+			rel := sendOn(isSem(worker))
+			c.mustFollow(worker, "goroutine entry", []start{atEntry(worker)}, rel, "rebroadcastSem <- struct{}{}", nil, 1)
+			c.mustPrecede(worker, callTo(reb), "b.rebroadcast(txs, confChan)", rel, "token release", 1)
+			rels := find(worker, rel)
+			c.verdict(len(rels) == 1, c.nm(worker)+" | the token is returned exactly once", c.P.Pos(worker.Pos()), "one release", fmt.Sprintf("%d releases of the semaphore token", len(rels)), c.ats(rels)...)
+			// the goroutine works on a copy: it is given a map made in the trigger, filled with tx.Copy()
+			okCopy := false
+			cp := c.method(pWire, "MsgTx", "Copy")
+			for _, call := range find(worker, callTo(reb)) {
+				a := ir.CallOf(call).Args[1]
+				// free var bound to a MakeMap of the trigger
+				ir.DerivesFrom(a, func(x ssa.Value) bool {
+					if fv, ok := x.(*ssa.FreeVar); ok {
+						for _, g := range gos {
+							mc := g.(*ssa.Go).Call.Value.(*ssa.MakeClosure)
+							for i, b := range mc.Bindings {
+								if worker.FreeVars[i] == fv {
+									if mk, ok := b.(*ssa.MakeMap); ok && mk.Parent() == trigger {
+										okCopy = true
+									}
+									if al, ok := b.(*ssa.Alloc); ok {
+										for _, st := range ir.StoresTo(al) {
+											if mk, ok := st.Val.(*ssa.MakeMap); ok && mk.Parent() == trigger {
+												okCopy = true
+											}
 										}
 									}
 								}
 							}
 						}
 					}
-				}
-				return false
-			})
+					return false
+				})
+			}
+			nCopy := len(find(trigger, callTo(cp)))
+			c.verdict(okCopy && nCopy >= 1, c.nm(trigger)+" | the rebroadcast goroutine gets a fresh copy of the pending set (tx.Copy())", c.P.Pos(trigger.Pos()), "fresh map with copied transactions", "the rebroadcast goroutine shares the handler's pending map or its transactions (data race / sees later mutations)")
 		}
-		nCopy := len(find(trigger, callTo(cp)))
-		c.verdict(okCopy && nCopy >= 1, c.nm(trigger)+" | the rebroadcast goroutine gets a fresh copy of the pending set (tx.Copy())", c.P.Pos(trigger.Pos()), "fresh map with copied transactions", "the rebroadcast goroutine shares the handler's pending map or its transactions (data race / sees later mutations)")
+		// initial token: one send in broadcastHandler before the loop
+		init := find(fn, sendOn(func(v ssa.Value) bool {
+			return ir.DerivesFrom(v, func(x ssa.Value) bool { return x == ssa.Value(sem) })
+		}))
+		c.verdict(len(init) == 1, c.nm(fn)+" | semaphore starts with one token", c.P.Pos(fn.Pos()), "one initial token", fmt.Sprintf("%d initial tokens", len(init)), c.ats(init)...)
 	})
 
 	c.rule("C15.V2", "interval rebroadcasts are driven by a fixed-period ticker: the handler's select receives the interval signal from the C channel of one time.NewTicker(cfg.RebroadcastInterval) created before the loop (a per-iteration time.After restarts the countdown on every other event, so a busy handler never rebroadcasts between blocks)", func() {
